@@ -168,8 +168,12 @@ class C16(Check):
         'default preferences; tied to the source by the differential correspondence of this run on identical token lists',
         'translator tools/gen/c16_selconst.py (class Constants, New.productions, the name tables): read with ast, '
         'cross-checked against the live objects in this run',
-        'the tokenizer is not modelled: both sides receive the same token lists; that the rendered text of the '
-        'theorems\' token lists tokenizes to those lists is exercised by the oracle (text -> tokens -> selector)',
+        'text level (T16.4): the tokenizer model lean/CssVerif/Model/Tok.lean of C05 (tokenize2.py, tables '
+        'Gen/C05Productions.lean regenerated and cross-checked by this check too) in front of the selector model; for plain '
+        'spellings tokenize_plain is a theorem, for every generated text the model pipeline text -> tokens -> selector is '
+        'compared with the real tokenizer and Selector (seltext stream)',
+        'attachment (T16.5): serItems under the sheet\'s effective namespaces, compared with the attached selectorText for '
+        'sheets with the same / renamed / fewer / other-default / extra @namespace declarations (attach stream)',
     )
     assumptions = (
         'str.lower() is ASCII case folding on the values the model normalises (pseudo names, `not(`); selectors with '
@@ -182,7 +186,9 @@ class C16(Check):
             'namespace environments) rendered under independent spelling choices (white space, comments, case, '
             'backslash escapes, quote style), tokenized by the real tokenizer; malformed stream: token-level '
             'mutations of those and soups of tokenized fragments; synthetic stream: hand-made tokens that reach the '
-            'partial Python operations; list stream: random set/append/replace/delete histories. ' + NONTRIVIAL_NOTE)
+            'partial Python operations; list stream: random set/append/replace/delete histories; text streams: every '
+            'grammar case once more as text through the tokenizer model (text, seltext); attach stream: 35 % of the accepted '
+            'grammar cases put as a rule object into a sheet with varied @namespace declarations. ' + NONTRIVIAL_NOTE)
 
     # ------------------------------------------------------------------------------------------
     def translate(self, ctx):
